@@ -189,6 +189,73 @@ func runVp9History(flexible bool, init uint16, calls []Tok, frames []vp9Frame) O
 	return o
 }
 
+// vp9RefDescriptor reads the VP9 payload descriptor (draft-ietf-payload-vp9 / RFC 9628, section 4.2)
+// up to the scalability structure, independently of the library: I P L F B E V Z, the picture id,
+// the layer indices, TL0PICIDX (non-flexible mode only) and the reference indices (flexible mode with P).
+type vp9Ref struct {
+	i, p, l, f, b, e, v, z bool
+	pictureID              int
+	tid, sid               int
+	u, d                   bool
+	tl0                    int
+	pdiff                  []uint8
+	ok                     bool
+}
+
+func vp9RefDescriptor(in []byte) (r vp9Ref) {
+	if len(in) < 1 {
+		return
+	}
+	bit := func(k uint) bool { return in[0]>>k&1 == 1 }
+	r.i, r.p, r.l, r.f, r.b, r.e, r.v, r.z = bit(7), bit(6), bit(5), bit(4), bit(3), bit(2), bit(1), bit(0)
+	idx := 1
+	need := func(n int) bool { return len(in) >= idx+n }
+	if r.i {
+		if !need(1) {
+			return
+		}
+		if in[idx]&0x80 != 0 {
+			if !need(2) {
+				return
+			}
+			r.pictureID = int(in[idx]&0x7F)<<8 | int(in[idx+1])
+			idx += 2
+		} else {
+			r.pictureID = int(in[idx])
+			idx++
+		}
+	}
+	if r.l {
+		if !need(1) {
+			return
+		}
+		r.tid, r.u, r.sid, r.d = int(in[idx]>>5), in[idx]>>4&1 == 1, int(in[idx]>>1&7), in[idx]&1 == 1
+		idx++
+		if !r.f {
+			if !need(1) {
+				return
+			}
+			r.tl0 = int(in[idx])
+			idx++
+		}
+	}
+	if r.f && r.p {
+		for {
+			if !need(1) || len(r.pdiff) == 3 {
+				return
+			}
+			r.pdiff = append(r.pdiff, in[idx]>>1)
+			more := in[idx]&1 == 1
+			idx++
+			if !more {
+				break
+			}
+		}
+	}
+	r.ok = true
+	return
+}
+
 func runVp9UnmarshalSeq(payloads [][]byte) Outcome {
 	var o Outcome
 	d := &codecs.VP9Packet{}
@@ -215,6 +282,16 @@ func runVp9UnmarshalSeq(payloads [][]byte) Outcome {
 		o.Nontrivial = true
 		o.Tags = append(o.Tags, "vp9 accepted")
 		res = append(res, OkV(L(vVp9Pkt(d), Bool(head))))
+		if ref := vp9RefDescriptor(in); ref.ok && o.Fail == "" {
+			same := d.I == ref.i && d.P == ref.p && d.L == ref.l && d.F == ref.f && d.B == ref.b && d.E == ref.e && d.V == ref.v && d.Z == ref.z &&
+				int(d.PictureID) == ref.pictureID && int(d.TID) == ref.tid && d.U == ref.u && int(d.SID) == ref.sid && d.D == ref.d &&
+				int(d.TL0PICIDX) == ref.tl0 && bytes.Equal(d.PDiff, ref.pdiff)
+			if !same {
+				o.Fail = fmt.Sprintf("step %d: descriptor %x decoded as I=%v P=%v L=%v F=%v pictureID=%d TID=%d U=%v SID=%d D=%v TL0PICIDX=%d PDiff=%v, the payload format reads pictureID=%d TID=%d U=%v SID=%d D=%v TL0PICIDX=%d PDiff=%v",
+					i, in[:minInt(len(in), 8)], d.I, d.P, d.L, d.F, d.PictureID, d.TID, d.U, d.SID, d.D, d.TL0PICIDX, d.PDiff,
+					ref.pictureID, ref.tid, ref.u, ref.sid, ref.d, ref.tl0, ref.pdiff)
+			}
+		}
 		f := &codecs.VP9Packet{}
 		if _, e2 := f.Unmarshal(buf); e2 != nil || Render(vVp9Pkt(f)) != Render(vVp9Pkt(d)) {
 			o.Fail = fmt.Sprintf("step %d: reused receiver differs from a fresh one", i)
